@@ -26,7 +26,7 @@ MODES = (None, "2-point", "3-point", "cs")
 
 def floors(tier):
     return {"fd_runs": 600, "stencil_points_checked": 20000, "value_comparisons": 250, "runs_active_bound_at_optimum": 250,
-            "mode:None": 100, "mode:2-point": 100, "mode:3-point": 100, "mode:cs": 40, "degenerate_side_runs": 40, "settings_leak_checks": 60, "fd_restarts": 200, "fd_restarts_from_a_call_that_computed_no_gradient": 150, "finite_difference_gradients_compared_with_the_exact_one": 300, "finite_difference_gradients_with_a_box_side_below_the_step": 30, "problems_with_gradient_scaler": 30, "problems_with_logger": 40, "problems_whose_objective_returns_a_reused_array": 25, "problems_with_nested_finite_difference_run": 20, "__nontrivial__": 200}
+            "mode:None": 100, "mode:2-point": 100, "mode:3-point": 100, "mode:cs": 40, "degenerate_side_runs": 40, "settings_leak_checks": 60, "fd_restarts": 200, "problems_with_non_default_curvature_threshold": 30, "fd_restarts_from_a_call_that_computed_no_gradient": 150, "finite_difference_gradients_compared_with_the_exact_one": 300, "finite_difference_gradients_with_a_box_side_below_the_step": 30, "problems_with_gradient_scaler": 30, "problems_with_logger": 40, "problems_whose_objective_returns_a_reused_array": 25, "problems_with_nested_finite_difference_run": 20, "__nontrivial__": 200}
 
 
 def cases(tier, seed):
@@ -41,7 +41,7 @@ def cases(tier, seed):
         yield {"problem": ps, "maxcor": int(rng.integers(1, 9)) if ps["n"] < 20 else int(rng.integers(11, 21)), "eps": float(gen.pick(rng, [1e-8, 1e-6])),
                "rel": gen.pick(rng, [None, None, 1e-7]), "maxls": int(gen.pick(rng, [5, 20])),
                "scaler": float(np.exp(rng.uniform(np.log(1e-2), np.log(1e2)))) if i % 4 == 1 else None, "split": int(rng.integers(1, 6)),
-               "value_buffer": bool(i % 5 == 2), "nested": bool(i % 6 == 3), "iprint": int(gen.pick(rng, [0, 1, 99, 100, 101])) if i % 3 == 1 else None}
+               "value_buffer": bool(i % 5 == 2), "nested": bool(i % 6 == 3), "eps_SY": float(gen.pick(rng, [1e-3, 0.3])) if i % 4 == 2 else None, "iprint": int(gen.pick(rng, [0, 1, 99, 100, 101])) if i % 3 == 1 else None}
 
 
 def run(spec):
@@ -51,6 +51,9 @@ def run(spec):
     base = dict(maxcor=spec["maxcor"], maxls=spec["maxls"], ftol=0.0, gtol=1e-6, maxiter=400, maxfun=50000, eps=spec["eps"],
                 finite_diff_rel_step=spec["rel"], cb="never")
     sfac = 1.0
+    if spec.get("eps_SY") is not None:
+        base["eps_SY"] = spec["eps_SY"]  # the curvature threshold of the memory: no business of the differencing
+        out.count("problems_with_non_default_curvature_threshold")
     if spec.get("scaler"):
         # a gradient scaler multiplies objective and gradient inside the solver: the differencing must be unaffected
         base["scaler"] = sfac = float(spec["scaler"])
@@ -100,7 +103,10 @@ def run(spec):
         if tr.snap["message"] not in e2e.MSG_KEY:
             out.violate("undocumented_message", f"{name}: message {tr.snap['message']!r}", **tags)
             break
-        if fam in CONVEX and exact.exc is None:
+        limited = any(m in (e2e.MESSAGES["ITER"], e2e.MESSAGES["EVAL"]) for m in (tr.snap["message"], None if exact.exc is not None else exact.snap["message"]))
+        if fam in CONVEX and exact.exc is None and limited:
+            out.count("pairs_stopped_by_a_budget_not_compared")  # (a demanding curvature threshold slows both runs down: neither is at the solution)
+        if fam in CONVEX and exact.exc is None and not limited:
             fe, ff = exact.snap["fun"], tr.snap["fun"]
             gap = abs(ff - fe) / max(1.0, abs(fe))
             out.count("value_comparisons")
